@@ -91,3 +91,15 @@ pub open spec fn pkt_wf(p: DNSPkt) -> bool {
 pub open spec fn sections_fit(p: DNSPkt) -> bool { p.answer@.len() <= 65535 && p.nameserver@.len() <= 65535 && p.additional@.len() < 65535 }
 // a message the encoder accepts: what the decoder produces from any message of at most 65536 octets (unit dnsparse)
 pub open spec fn reply_wf(p: DNSPkt) -> bool { pkt_wf(p) && sections_fit(p) }
+// record data kept as opaque octets: every type the decoder has no structured form for
+pub open spec fn opaque_type(t: Type) -> bool {
+    t != RR_CNAME && t != RR_NS && t != RR_PTR && t != RR_AFSDB && t != RR_RP && t != RR_RT && t != RR_MX && t != RR_NAPTR && t != RR_OPT && t != RR_SOA
+}
+// the fixed part of a record as the decoder reads it at o1 (first octet after the owner name); `end` = cursor after the record
+pub open spec fn rr_decoded_at(b: Seq<u8>, o1: int, rr: RR, end: int) -> bool {
+    &&& 0 <= o1 && o1 + 10 <= b.len()
+    &&& rr.rrtype.0 as int == (b[o1] as int * 256 + b[o1 + 1] as int) && rr.class.0 as int == (b[o1 + 2] as int * 256 + b[o1 + 3] as int)
+    &&& rr.ttl as int == b[o1 + 4] as int * 16777216 + b[o1 + 5] as int * 65536 + b[o1 + 6] as int * 256 + b[o1 + 7] as int
+    &&& ((rr.rdata is Other) <==> opaque_type(rr.rrtype))
+    &&& (rr.rdata is Other ==> end == o1 + 10 + (b[o1 + 8] as int * 256 + b[o1 + 9] as int) && end <= b.len() && rr.rdata->Other_0@ == b.subrange(o1 + 10, end))
+}
